@@ -946,7 +946,8 @@ def run(ctx):
     from concurrent.futures import ThreadPoolExecutor
     ctx.level = "proof"
     ctx.assumptions += [
-        "a task's bookkeeping (commit) is one atomic step of an interleaving semantics: it runs under the subgrid lock (C08 proves the locks); the trace hook H2 wraps the commit and its log record in one mutex region, so the log order is a valid order of the commits",
+        "a task's bookkeeping (commit) is one atomic step of an interleaving semantics: it runs under the subgrid lock (C08 proves the locks). Serialised traced runs: hook H2 wraps the commit and its log record in one mutex region, so the log order is a valid order of the commits",
+        "non-serialised traced runs (CMAC_VERIF_NOSERIAL=1, hook H3c: no trace mutex, only single log lines are atomic; the bookkeeping of different threads really interleaves): the log order is still a valid order of the model's steps because every record is written AFTER the action that enables it and BEFORE the action that enables its successors: a task creation record (PT PK PB PO PL PP) after the slot/buffer was taken and before add_task resp. before the creating task returns (PQ before add_task); PA after the queue pop that locked the dependency; the commit record (PX PR PC PH PB) after the last write of the commit and before the task's unlock_dependency, before its own task slot is released and BEFORE the input buffer is released (PX before free_buffer; PR before free_buffer needs patches/hook_c01_noserial.diff) -- so two tasks on one subgrid / block never overlap in the log, a re-used buffer or task slot is logged as free before it is logged as taken again, and a thread that sees pool empty and done = N logs PZ after all commit records; PP/PM are written while the subgrid lock is held. Values read for the log are the task's own data (buffer sizes and packet ids of buffers it owns under its lock, its local done delta). Three places where the code itself is not one atomic action are treated as such: the termination test (two reads) -- PZ is replayed at the end of the iteration, where its guard must hold; the counter test of the continuous source (pre_subtract, then a separate read): the task that creates the flush tasks is replayed after all other continuous source tasks, whose subtraction necessarily came first, and the separately read counter value in PC is not compared; an overflow buffer that is taken and released inside one commit is matched with any free buffer of the model",
         "the physics inside a task is abstracted: exit direction of every packet, re-emission decision and target subgrid of a continuous-source packet are universally quantified inputs of the labels",
         "capacities of the buffer pool, task table and queues are not exhausted (free ids are label parameters; no_stuck assumes two free buffers and nblocks+1 free task slots)",
         "sequentially consistent atomics; the non-atomic read pair (is_empty, num_photon_done) of the termination test is modelled as one read (the hook order makes every logged PZ consistent, replay checks it)",
@@ -964,7 +965,7 @@ def run(ctx):
     ctx.cov["rule"] = ("dps: N 1..60 x 1..%d sources x copy counts {1,2,4}^sources x weight patterns (exhaustive) + random (N up to 2e5, up to 6 sources, copy counts up to 8); "
                        "photon: real runs on generated configurations (1..4 subgrids per axis, periodic or not, copy level 0..2, discrete / continuous / both sources with 1..4 point sources, "
                        "diffuse field on/off, N in {1,2,7,199,200,201,399,400,401,600,1000,1234,2001,3217}, 1..3 iterations, 1/2/4/8 threads), every trace record replayed through Photon.step; "
-                       "jitter: the same with seeded delays at the H1 yield points, traced and untraced; distinct = (layout, periodicity, N, copy level, source mix, diffuse, threads, jitter); "
+                       "jitter: the same with seeded delays at the H1 yield points, traced (serialised and, with 4/8/16 threads, NON-serialised: CMAC_VERIF_NOSERIAL=1) and untraced; distinct = (layout, periodicity, N, copy level, source mix, diffuse, threads, jitter); "
                        "non-trivial = more than one subgrid, or diffuse field, or more than one buffer of packets" % ctx.budget(3, 4))
     if ok:
         dps_stream(ctx, harness)
